@@ -41,7 +41,7 @@ EXPLANATION = ("Exhaustive sub-space (both tiers): every labelled graph up to is
                "Everything else is seeded random / "
                "corpus sampling.  Theorems (coq/props/C11.v, all closed under the global context): C11_vocabulary, C11_aut_count, C11_aut_group, "
                "C11_vf2_contract, C11_vf2_contract_items, C11_orbits_exact, C11_orbits_partition, C11_components, C11_anchors, C11_object_state, C11_wl_never_splits, C11_wl_partition, C11_wfb_sound, "
-               "C11_dedup_sublist, C11_dedup_first_of_class, C11_partial_prune, C11_partial_prune_hosts, C11_prune_complete, C11_rep_ok, C11_prune_complete_aut, C11_prune_first_of_class, C11_prune_same_results.")
+               "C11_dedup_sublist, C11_dedup_first_of_class, C11_dedup_idempotent, C11_partial_prune, C11_partial_prune_hosts, C11_prune_complete, C11_rep_ok, C11_prune_complete_aut, C11_prune_first_of_class, C11_prune_same_results.")
 TRUSTED_BASE = [
     "Coq 8.16.1 kernel + vm_compute (no native_compute)",
     "hand-written model coq/model/C11_Model.v tied to synkit/Graph/Matcher/{automorphism,auto_est,dedup_matches}.py and the pruning call of "
@@ -279,6 +279,26 @@ def _indices(ms, out):
         if k is not None:
             start = k + 1
     return idx
+
+
+IDEM_CFGS = (1, 3, 7, 8, 10)
+
+
+def _idempotent_flags(case):
+    """de-duplicating an already de-duplicated list returns it unchanged (C11_dedup_idempotent; the configuration objects
+    are the same for both passes)"""
+    P, H = GG.to_nx(case["p"]), GG.to_nx(case["h"])
+    cfgs = _dedup_cfgs(P, H)
+    flags = []
+    for ci in IDEM_CFGS:
+        ms = [dict((p, h) for p, h in m) for m in case["ms"]]
+        try:
+            once = cfgs[ci](ms)
+            twice = cfgs[ci](list(once))
+            flags.append(len(once) == len(twice) and all(a is b for a, b in zip(once, twice)))
+        except ValueError:
+            flags.append(True)
+    return flags
 
 
 def _impl_dedup(case):
@@ -561,7 +581,7 @@ def impl(case):
     if k == "dedup":
         res = _impl_dedup(case)
         raw, kept = _pm_lists(case)
-        return [[[res[:N_OLD], True, True]] + res[N_OLD:N_OLD + 8], [0, _indices(raw, kept)]] + res[N_OLD + 8:]
+        return [[[res[:N_OLD], True, True]] + res[N_OLD:N_OLD + 8], [0, _indices(raw, kept)]] + res[N_OLD + 8:] + [_idempotent_flags(case)]
     if k == "hist":
         return _impl_hist(case)
     if k == "prune":
@@ -684,8 +704,8 @@ def coq_case(case):
                 "L [run_dedup_x %s h ms; t_idx (partial_prune (@snd nat mapping) n_exact h 10 (indexed %s)); "
                 "t_idx (dedup_anchor (@snd nat mapping) (indexed ms) None [] (Some (ho ++ [node_ids h]))); "
                 "t_idx (dedup_anchor (@snd nat mapping) (indexed ms) None [] (Some (node_ids h :: ho))); "
-                "t_idx (partial_prune_hosts (@snd nat mapping) n_exact [h; h] 10 (indexed ms))])"
-                % (_coq_graph(case["h"]), _coq_maps(case["ms"]), _coq_graph(case["p"]), _coq_maps(raw)))
+                "t_idx (partial_prune_hosts (@snd nat mapping) n_exact [h; h] 10 (indexed ms)); tlist tbool [%s]])"
+                % (_coq_graph(case["h"]), _coq_maps(case["ms"]), _coq_graph(case["p"]), _coq_maps(raw), "; ".join(["true"] * len(IDEM_CFGS))))
     if k == "prune":
         worker_init()
         r = _reactor(case, "front")
@@ -1082,7 +1102,7 @@ def neighbours(case, rng):
 
 def _dedup_results(obs):
     """flat list of the per-configuration results of a dedup observable"""
-    return list(obs[0][0][0]) + list(obs[0][1:]) + list(obs[2:]) + [obs[1]]
+    return list(obs[0][0][0]) + list(obs[0][1:]) + list(obs[2:-1]) + [obs[1]]
 
 
 def nontrivial(case, obs):
